@@ -3,7 +3,6 @@ package main
 import (
 	"fmt"
 	"regexp"
-	"strings"
 
 	distiller "github.com/markusmobius/go-domdistiller"
 	"golang.org/x/net/html"
@@ -29,7 +28,7 @@ func init() {
 		Rule: "G-article pages in which every URL-carrying attribute (a[href] in paragraphs, headings, list items, quotes, captions, table cells, link clusters; img src/srcset, lazy data-src, picture source srcset, figure images incl. noscript-hoisted ones, video src/poster, source/track src) is a reference of a random form {path-relative, ./, ../, root-relative, scheme-relative, query-only, absolute, fragment-only, data:, javascript:, unparseable} with a unique id; 5 page URLs (file-style, directory-style with trailing slash, with query, with fragment, https with both). Each URL found in Result.Node (outside placeholders) and in ContentImages is matched by id with the value expected by construction. Non-trivial = a checked URL; distinct = distinct (form, carrier attribute, output path, page-URL kind).",
 		Assumptions: []string{
 			"expected values come from an independent RFC 3986 section 5.2 resolution written for exactly the generated forms",
-			"srcset candidates never contain commas",
+			"srcset values are split the way a browser does (a URL may contain commas)",
 		},
 		N: func(tier string) int {
 			if tier == "quick" {
@@ -110,12 +109,8 @@ func runC06(c *Ctx, idx int) {
 			}
 		}
 		if v := attr(n, "srcset"); v != "" {
-			for _, cand := range strings.Split(v, ",") {
-				f := strings.Fields(cand)
-				if len(f) == 0 {
-					continue
-				}
-				checkVal(f[0], n.Data, "srcset", path)
+			for _, cand := range parseSrcset(v) {
+				checkVal(cand, n.Data, "srcset", path)
 			}
 		}
 		return true
